@@ -15,11 +15,13 @@ From Coq Require Import List ZArith NArith String Bool Arith.
 From AV Require Import Base.Codec Model.C16_Own.
 Import ListNotations.
 
-Definition zn (l : list Z) (k : nat) : nat := Z.to_nat (nth k l 0%Z).
+(* sizes and slot numbers are small; anything larger is a lane value, only used through o_zb / o_zc *)
+Definition zn (l : list Z) (k : nat) : nat :=
+  let z := nth k l 0%Z in if (z <? 1048576)%Z then Z.to_nat z else 0%nat.
 
 Fixpoint decode_ops (a : args) : list op :=
   match a with
-  | h :: d :: t => mkOp (zn h 0) (zn h 1) (zn h 2) (zn h 3) (zn h 4) d :: decode_ops t
+  | h :: d :: t => mkOp (zn h 0) (zn h 1) (zn h 2) (zn h 3) (zn h 4) d (nth 2 h 0%Z) (nth 3 h 0%Z) :: decode_ops t
   | _ => []
   end.
 
